@@ -40,6 +40,17 @@ func genC11(seed uint64, tier string) *plan.Plan {
 	if r.IntN(3) > 0 {
 		badAt = r.IntN(n)
 	}
+	if r.IntN(6) == 0 {
+		// a long stream of short messages while the application behind the collector is not
+		// taking anything for a while: the collector holds what it has read until it is taken
+		n = 70 + r.IntN(150)
+		badAt = -1
+		if r.IntN(4) == 0 {
+			badAt = n - 1 - r.IntN(10)
+		}
+		pl.Cfg["cstall_ms"] = int64(200 + r.IntN(5000))
+		pl.Cfg["max_steps"] = 40_000_000
+	}
 	var tmpls []gTemplate
 	total := 0
 	var bounds []int
@@ -243,6 +254,10 @@ func runC11(pl *plan.Plan, out *plan.Outcome) {
 	}
 	env.Go("collector", func() { cp.Start() })
 	env.Go("consumer", func() {
+		if ms := cfgOr(pl, "cstall_ms", 0); ms > 0 {
+			env.Count("fault.consumer_stall", 1)
+			env.Sleep(time.Duration(ms) * time.Millisecond)
+		}
 		for {
 			var msg *entities.Message
 			var ok bool
